@@ -6,6 +6,8 @@ range contains a TU location of the error's context chain.  Any item whose batch
 from the expectation is recompiled ALONE; only the solo verdict is reported.
 """
 import os
+import re
+import sys
 
 from . import cxx
 from .common import AnalysisBroken
@@ -35,6 +37,14 @@ class Item:
         self.stds = stds  # None = all, else set like {'c++20'}
         self.meta = meta or {}
         self.ns = None
+        if expect == "reject" and os.environ.get("VERIF_LINT_WITNESSES"):
+            # developer lint: a must-not-compile witness with several candidate statements is satisfied by
+            # any one of them being refused
+            m = re.search(r"void w\(\) \{(.*)\}\s*$", code, re.S)
+            body = m.group(1) if m else ""
+            n = len(re.findall(r"\(void\)", body)) + len(re.findall(r"[^=!<>]=[^=]", re.sub(r"\b(auto|[A-Z]\w*|const \w+)\s+\w+\s*=[^;]*;", "", body)))
+            if n >= 2:
+                sys.stderr.write("LINT multi-statement reject witness %s: %s\n" % (key, body.strip()[:200]))
 
 
 CONTROL_REJECT = ("template <class T> struct CtlBad { static_assert(sizeof(T) == 0, \"ctl\"); };\n"
